@@ -9,10 +9,9 @@
 (* id i lives at index i + 1.  Time priority is POSITION in the queue      *)
 (* sequence (b.qb / b.qa, best first), deliberately not a timestamp key.   *)
 (***************************************************************************)
-EXTENDS Integers, Sequences, FiniteSets
+EXTENDS Integers, Sequences, FiniteSets, SequencesExt
 
-CONSTANTS MaxPrice,   \* stands for the code's Price::MAX sentinel
-          NLevels     \* number of published price levels (LEVELS)
+CONSTANTS MaxPrice    \* stands for the code's Price::MAX sentinel
 
 None == -1            \* "no value" for optional prices / volumes / end time
 
@@ -20,8 +19,7 @@ MinOf(x, y) == IF x <= y THEN x ELSE y
 MaxOf(x, y) == IF x >= y THEN x ELSE y
 Opp(s) == IF s = "B" THEN "A" ELSE "B"
 
-RECURSIVE SumSeq(_)
-SumSeq(s) == IF s = <<>> THEN 0 ELSE Head(s) + SumSeq(Tail(s))
+SumSeq(s) == FoldLeft(LAMBDA a, x : a + x, 0, s)
 
 SeqToSet(s) == {s[i] : i \in 1..Len(s)}
 RemoveFromSeq(s, x) == SelectSeq(s, LAMBDA y : y # x)
@@ -29,8 +27,9 @@ RemoveFromSeq(s, x) == SelectSeq(s, LAMBDA y : y # x)
 ---------------------------------------------------------------------------
 (* Construction and accessors *)
 
-NewBook(t0, tick, trading) ==
+NewBook(t0, tick, trading, nlev) ==
   [ now     |-> t0,
+    nlev    |-> nlev,    \* number of published price levels (LEVELS)
     tick    |-> tick,
     trading |-> trading,
     tvol    |-> 0,
@@ -192,6 +191,16 @@ EnableF(b)     == [b EXCEPT !.trading = TRUE]
 DisableF(b)    == [b EXCEPT !.trading = FALSE, !.everOff = TRUE]
 ResetTVolF(b)  == [b EXCEPT !.tvol = 0, !.resetAt = Len(b.trades)]
 
+\* Drain probe: with trading enabled and the clock advanced by one, a market sell
+\* for the whole bid volume and then a market buy for the whole ask volume.  The
+\* trades it makes spell out the complete priority order of both queues.
+DrainF(b) ==
+  LET b0 == SetTimeF(EnableF(b), b.now + 1)
+      bv == SumSeq([i \in 1..Len(b0.qb) |-> O(b0, b0.qb[i]).vol])
+      b1 == IF bv > 0 THEN PlaceF(CreateF(b0, "A", bv, 0, None), NextId(b0)) ELSE b0
+      av == SumSeq([i \in 1..Len(b1.qa) |-> O(b1, b1.qa[i]).vol])
+  IN  IF av > 0 THEN PlaceF(CreateF(b1, "B", av, 0, None), NextId(b1)) ELSE b1
+
 ---------------------------------------------------------------------------
 (* Views computed from the queues (the observation function) *)
 
@@ -217,7 +226,7 @@ LevelPrice(b, s, i) ==
   ELSE (IF BestAsk(b) + i * b.tick <= MaxPrice THEN BestAsk(b) + i * b.tick ELSE None)
 
 LevelsQ(b, s) ==
-  [i \in 1..NLevels |->
+  [i \in 1..b.nlev |->
      IF Q(b, s) = <<>> \/ LevelPrice(b, s, i - 1) = None THEN <<0, 0>>
      ELSE AtPriceQ(b, s, LevelPrice(b, s, i - 1))]
 
@@ -250,10 +259,8 @@ ActiveIds(orders, s) ==
 SetMax(S) == CHOOSE x \in S : \A y \in S : y <= x
 SetMin(S) == CHOOSE x \in S : \A y \in S : y >= x
 
-RECURSIVE SumOver(_, _)
-SumOver(S, f) ==
-  IF S = {} THEN 0
-  ELSE LET x == CHOOSE y \in S : TRUE IN f[x] + SumOver(S \ {x}, f)
+\* sum of f[x] over x in S, for f a sequence and S a subset of its domain
+SumOver(S, f) == SumSeq([i \in 1..Len(f) |-> IF i \in S THEN f[i] ELSE 0])
 
 TouchO(orders, s) ==
   LET A == ActiveIds(orders, s) IN
@@ -267,15 +274,15 @@ AtPriceO(orders, s, p) ==
   LET S == {i \in ActiveIds(orders, s) : orders[i].price = p}
   IN  <<SumOver(S, VolsO(orders)), Cardinality(S)>>
 
-LevelsO(orders, tick, s) ==
+LevelsO(orders, tick, nlev, s) ==
   LET A == ActiveIds(orders, s)
       t == TouchO(orders, s)
-  IN [i \in 1..NLevels |->
+  IN [i \in 1..nlev |->
        IF A = {} THEN <<0, 0>>
        ELSE LET p == IF s = "B" THEN t - (i - 1) * tick ELSE t + (i - 1) * tick
             IN IF p < 0 \/ p > MaxPrice THEN <<0, 0>> ELSE AtPriceO(orders, s, p)]
 
-ViewsO(orders, tick) ==
+ViewsO(orders, tick, nlev) ==
   [ bid  |-> TouchO(orders, "B"), ask |-> TouchO(orders, "A"),
     bvol |-> SumOver(ActiveIds(orders, "B"), VolsO(orders)),
     avol |-> SumOver(ActiveIds(orders, "A"), VolsO(orders)),
@@ -283,7 +290,7 @@ ViewsO(orders, tick) ==
               ELSE AtPriceO(orders, "B", TouchO(orders, "B")),
     abest |-> IF ActiveIds(orders, "A") = {} THEN <<0, 0>>
               ELSE AtPriceO(orders, "A", TouchO(orders, "A")),
-    blev |-> LevelsO(orders, tick, "B"), alev |-> LevelsO(orders, tick, "A"),
+    blev |-> LevelsO(orders, tick, nlev, "B"), alev |-> LevelsO(orders, tick, nlev, "A"),
     mid2 |-> TouchO(orders, "B") + TouchO(orders, "A") ]
 
 ---------------------------------------------------------------------------
